@@ -4,4 +4,4 @@ go 1.12
 
 require github.com/knz/shakespeare v0.0.0
 
-replace github.com/knz/shakespeare => /tmp/seedrepo
+replace github.com/knz/shakespeare => /repo
